@@ -253,8 +253,13 @@ def write_evidence(prop, tier, seed, results, new, knownhits, wall, meta):
         'wall_s': round(wall, 3),
         'violations': len(new),
     }
-    os.makedirs(os.path.join(VERIF, 'evidence'), exist_ok=True)
-    with open(os.path.join(VERIF, 'evidence', f'{prop}.json'), 'w') as fh:
+    evdir = os.path.join(VERIF, 'evidence')
+    if os.environ.get('VERIF_REPO'):
+        # experiments against a scratch tree never overwrite real evidence
+        import tempfile
+        evdir = os.path.join(tempfile.gettempdir(), 'verif_scratch_evidence')
+    os.makedirs(evdir, exist_ok=True)
+    with open(os.path.join(evdir, f'{prop}.json'), 'w') as fh:
         json.dump(ev, fh, indent=1)
 
 
